@@ -503,6 +503,16 @@ def corpus():
         meta = {"pps": pr, "exch": None, "surf": None, "ss": None, "hp": False, "temp": 25.0}
         text += _punch(pr)
         out.append({"id": "corpus-restrictions-" + dbn, "db": dbn, "text": text, "flags": [], "meta": meta})
+    # finding F-C03-2: a phase whose element is absent keeps the reaction written for an EARLIER model (minimised from the
+    # thorough run): Vivianite (P) dissolves a little in calculation 1; calculation 2 uses the P-free solution again with
+    # Vivianite precipitate_only (so no P is added): its whole amount is lost
+    sa = [_pp("Hematite", 0, 0), _pp("Vivianite", 0.88, 0.00016)]
+    sb = [_pp("Hematite", 0, 10), _pp("Vivianite", 0, 0.00016, "precipitate_only")]
+    text = ("SOLUTION 1\n Fe 0.09319\nEQUILIBRIUM_PHASES 1\n Hematite 0 0\n Vivianite 0.88 0.00016\n"
+            "EQUILIBRIUM_PHASES 2\n Hematite 0 10\n Vivianite 0 0.00016 precipitate_only\n")
+    meta = {"pps": sa, "stages": [sa, sb], "exch": None, "surf": None, "ss": None, "hp": False, "temp": 25.0}
+    text += _punch(sa) + "USE solution 1\nUSE equilibrium_phases 2\nEND\n"
+    out.append({"id": "corpus-F-C03-2", "db": "phreeqc.dat", "text": text, "flags": [], "meta": meta})
     # finding F-C03-1: precipitate_only phase next to a diffuse-layer surface (minimised from seed 0)
     pps = [_pp("Goethite", 0.75, 0.0005, "precipitate_only")]
     text = ("SOLUTION 1\n Cl 10 charge\n Fe 0.5\nEQUILIBRIUM_PHASES 1\n Goethite 0.75 0.0005 precipitate_only\n"
@@ -762,6 +772,7 @@ def py_verdict(items):
 
 
 F1_KEY = "C03:precipitate_only+diffuse_layer:precipitated-amount-made-inert-by-repeated-model-calls"
+F2_KEY = "C03:precipitate_only+element-absent:stale-phase-reaction-of-earlier-model:amount-lost"
 
 
 def finding_key(job, meta, bad):
@@ -773,6 +784,12 @@ def finding_key(job, meta, bad):
         # is respected) and ends UNDERSATURATED; a precipitate_only phase that lost material is a different failure
         if all(b[2][5] > b[2][4] and b[2][6] < b[2][3] for b in bad):
             return F1_KEY
+    # signature of F-C03-2 only: in a LATER calculation of a run a precipitate_only phase whose element is not in the
+    # system (SI reported as -99.99 / -999: "Element not present") ends below its initial amount
+    if bad and len((meta.get("stages") or [1])) > 1 and all(
+            b[0] == "pp:precipitate_only" and len(b) > 2 and b[2][1].endswith("[follow-up calculation]")
+            and b[2][5] < b[2][4] and b[2][6] <= -99.0 for b in bad):
+        return F2_KEY
     return "input:" + hashlib.sha256((job["db"] + "\n" + job["text"]).encode()).hexdigest()[:16]
 
 
